@@ -5,8 +5,8 @@ import (
 	"testing/synctest"
 	"time"
 
-	_ "go.6river.tech/mmmbbb/ent/runtime"
 	"go.6river.tech/mmmbbb/actions"
+	_ "go.6river.tech/mmmbbb/ent/runtime"
 )
 
 func TestProbe(t *testing.T) {
